@@ -731,7 +731,8 @@ impl<'s> Tokenizer<'s> {
         let old_loc = self.loc();
         let mut ptr = 0;
         while let Some(block) = memstr(&self.rest_bytes()[ptr..], self.block_start().as_bytes()) {
-            ptr += block + self.block_start().len();
+            let hit = ptr + block;
+            ptr = hit + self.block_start().len();
             if let Some((endraw, ws_next)) =
                 skip_basic_tag(&self.rest()[ptr..], "endraw", self.block_end(), true)
             {
@@ -773,6 +774,9 @@ impl<'s> Tokenizer<'s> {
                 self.handle_tail_ws(ws_next);
                 return Ok(ControlFlow::Break((Token::TemplateData(result), span)));
             }
+            // not an endraw tag: a block start that can overlap itself (`[[`
+            // in `[[[ endraw ]]`) may begin again inside this occurrence
+            ptr = hit + self.block_start().chars().next().map_or(1, char::len_utf8);
         }
         self.advance(self.rest_bytes().len());
         Err(self.syntax_error("unexpected end of raw block"))
